@@ -72,5 +72,12 @@ pub async fn resolve_simple_field_value<T: OutputType + ?Sized>(
     )
     .await
     .map(Option::Some)
-    .map_err(|err| ctx.set_error_path(err))
+    // An error raised below this field already carries its own, more specific path.
+    .map_err(|err| {
+        if err.path.is_empty() {
+            ctx.set_error_path(err)
+        } else {
+            err
+        }
+    })
 }
